@@ -16,7 +16,8 @@ static std::string oracle(const Case& c) {
     std::string pwn = model::nfkd(pw); if (pwn.size() > POLYSEED_STR_SIZE - 1) { ev.count("discard:password-too-long"); return ""; }
     // alternative spellings: the other canonical form, and a genuinely different password
     std::string other_form = (model::nfc(pw) != pw) ? model::nfc(pw) : model::nfd(pw); std::string diff = pw + "x";
-    if (c.u("maskmode") == 1) { k.kdf_mode = deps::KDF_FIXED; std::string mk = c.bytes("mask"); mk.resize(32, '\0'); memcpy(k.kdf_fixed, mk.data(), 32); } else k.kdf_mode = deps::KDF_MIX;
+    if (c.u("maskmode") == 2) k.kdf_mode = deps::KDF_ECHO;   /* the first derived mask equals whatever the library's mask buffer held before the call; later calls return the same mask */
+    else if (c.u("maskmode") == 1) { k.kdf_mode = deps::KDF_FIXED; std::string mk = c.bytes("mask"); mk.resize(32, '\0'); memcpy(k.kdf_fixed, mk.data(), 32); } else k.kdf_mode = deps::KDF_MIX;
     std::string chain = c.bytes("chain"); if (chain.empty()) chain = std::string(1, '\0');
     const model::Seed orig = cur; int same_parity = 0; bool only_same = true; bool nonascii = false; for (unsigned char ch : pw) if (ch >= 0x80) nonascii = true;
     bool topbits = false;
@@ -35,7 +36,9 @@ static std::string oracle(const Case& c) {
         if (kc.saltlen != 16 || memcmp(kc.salt.data(), salt.data(), 16) != 0) return "crypt: KDF salt is " + hex(kc.salt) + " (length " + std::to_string(kc.saltlen) + "), must be 'POLYSEED mask' 00 FF FF";
         if (kc.iterations != model::KDF_ITERATIONS) return "crypt: iteration count is " + std::to_string(kc.iterations);
         if (kc.keylen != 32) return "crypt: requested mask length is " + std::to_string(kc.keylen) + ", must be 32";
-        uint8_t mask[32]; deps::kdf_fill(k, kc.pw.data(), kc.pwlen, kc.salt.data(), kc.saltlen, mask, 32);
+        uint8_t mask[32];
+        if (k.kdf_mode == deps::KDF_ECHO) { if (kc.out.size() != 32) return "internal: echo mask not recorded"; memcpy(mask, kc.out.data(), 32); memcpy(k.kdf_fixed, mask, 32); k.kdf_mode = deps::KDF_FIXED; ev.count("mask:equals-previous-content-of-the-mask-buffer"); }
+        else deps::kdf_fill(k, kc.pw.data(), kc.pwlen, kc.salt.data(), kc.saltlen, mask, 32);
         if ((mask[18] ^ 0) & 0xC0) topbits = true;
         cur = model::crypt(cur, mask);
         lib::Image img = lib::store(s); auto mi = model::image(cur);
@@ -80,11 +83,20 @@ static rc::Gen<std::string> password() {
 
 static void run() {
     setup(); Args& a = W().args;
+    // every normalised password length 0..543, in four alphabets (ASCII; a precomposed letter that decomposes to 3 bytes; a ligature that expands; a Hangul syllable)
+    { uint64_t idx = 0, done = 0; static const char* UNIT[4] = {"p", "\xc3\xa9", "\xef\xac\x81", "\xed\x95\x9c"};
+      for (int u = 0; u < 4; u++) for (size_t len = 0; len < POLYSEED_STR_SIZE; len++) {
+        if ((int)(idx++ % (uint64_t)a.nworkers) != a.worker) continue;
+        std::string pw; size_t ul = model::nfkd(UNIT[u]).size(); while (model::nfkd(pw).size() + ul <= len) pw += UNIT[u]; while (model::nfkd(pw).size() < len) pw += "x";
+        SplitMix sm(mix64(a.seed * 977 + idx)); std::vector<uint8_t> sec(19); for (auto& b : sec) b = (uint8_t)sm.next();
+        Case c; c.set("secret", hex(sec)); c.set("birthday", sm.next() % 1024); c.set("features", (uint64_t)(sm.next() % 32) & 0x17u); c.set("pw", hex(pw)); c.set("chain", hex(std::string("\x00\x01", 2))); c.set("maskmode", 0); c.set("lang", REG->at(idx % REG->size()).name_en); c.set("coin", sm.next() % 2048);
+        set_current(c); std::string m = oracle(c); done++; if (!m.empty() && enum_fail(c, m)) return; }
+      W().ev.enumerated["normalised password lengths 0..543 x 4 alphabets"] += done; W().ev.count("password-length-sweep", done); }
     rc_run("c12-crypt", a.n(30000, 300000), 100, [&]() {
         Case c; c.set("secret", hex(*g::secret19())); c.set("birthday", (uint64_t)*g::birthday()); c.set("features", *in_range<unsigned>(0, 32) & 0x17u);
         std::string pw = *password(); if (pw.find('\0') != std::string::npos) pw.resize(pw.find('\0')); c.set("pw", hex(pw));
         int n = *rc::gen::element(1, 1, 2, 2, 2, 3, 4); std::string chain; bool mixed = *in_range<int>(0, 3) == 0; for (int i = 0; i < n; i++) chain.push_back((char)(mixed ? *in_range<int>(0, 3) : *in_range<int>(0, 2)));
-        c.set("chain", hex(chain)); int mm = *in_range<int>(0, 2); c.set("maskmode", (uint64_t)mm);
+        c.set("chain", hex(chain)); int mm = *rc::gen::element(0, 0, 0, 1, 1, 1, 2); c.set("maskmode", (uint64_t)mm);
         if (mm == 1) c.set("mask", hex(*rc::gen::weightedOneOf<std::vector<uint8_t>>({{4, vf::bytes(32)}, {1, rc::gen::just(std::vector<uint8_t>(32, 0))}, {1, rc::gen::just(std::vector<uint8_t>(32, 0xFF))}, {2, rc::gen::map(vf::bytes(32), [](std::vector<uint8_t> v) { v[18] |= 0xC0; return v; })}})));
         c.set("lang", REG->at(*g::lang_index()).name_en); c.set("coin", (uint64_t)*g::coin()); if (*in_range<int>(0, 8) == 0) c.set("allocfail", 1);
         set_current(c); std::string m = oracle(c); if (!m.empty()) VF_FAIL(c, m);
